@@ -506,7 +506,7 @@ func (g *Graph) CheckedGuard(guard, target *Site) GuardResult {
 				continue
 			}
 		}
-		avoid := map[*cfg.Block]bool{c: true}
+		avoid := g.iterationAvoid(c, target.Block)
 		t := c.Succs[0] == target.Block || g.Reach(c.Succs[0], target.Block, avoid)
 		f := c.Succs[1] == target.Block || g.Reach(c.Succs[1], target.Block, avoid)
 		if t != f {
@@ -544,7 +544,7 @@ func (g *Graph) CondGates(target *Site, pred func(ast.Expr) bool) GuardResult {
 		if !g.BlockDominates(c, target.Block) {
 			continue
 		}
-		avoid := map[*cfg.Block]bool{c: true}
+		avoid := g.iterationAvoid(c, target.Block)
 		t := c.Succs[0] == target.Block || g.Reach(c.Succs[0], target.Block, avoid)
 		f := c.Succs[1] == target.Block || g.Reach(c.Succs[1], target.Block, avoid)
 		if t != f {
